@@ -143,6 +143,15 @@ type reader struct {
 	db       *database.Interface
 	seen     map[string]map[string]bool // pool key -> markers the interface cache may hold
 	subs     []*isub
+
+	// dw is a second interface with the same privileges, a cache and
+	// DelayCachedWrites for the case's database (batching back ends, readers
+	// lacking a privilege only). The option is documented for local+internal
+	// interfaces; an interface that lacks a privilege and sets it anyway must
+	// still not get anything across. dwPending: what its write cache may hold.
+	dw        *database.Interface
+	dwPending map[string]*mrec
+	dwSeen    map[string]bool // keys its cache holds a copy of (it judges later writes by that copy)
 }
 
 func (r *reader) full() bool { return r.local && r.internal }
@@ -235,6 +244,11 @@ func newEnv(t fataler, backend string, shadow bool) *env {
 			opts.CacheSize = 256
 		}
 		r.db = database.NewInterface(opts)
+		if !r.full() && (backend == beHashmap || backend == beBbolt || backend == beBadger) {
+			r.dw = database.NewInterface(&database.Options{Local: r.local, Internal: r.internal, CacheSize: 256, DelayCachedWrites: p.dbName})
+			r.dwPending = map[string]*mrec{}
+			r.dwSeen = map[string]bool{}
+		}
 		e.readers = append(e.readers, r)
 	}
 	for i := 0; i < 2; i++ {
@@ -470,6 +484,29 @@ func (e *env) resync(k string) {
 	}
 	info.secret, info.crown = sn.secret, sn.crown
 	e.model[k] = &mrec{Marker: sn.marker, N: sn.n, T: sn.t, Secret: sn.secret, Crown: sn.crown}
+}
+
+// dwReconcile: a write queued by an interface with DelayCachedWrites that lacks
+// a privilege does not reach the storage (its flush is refused as a whole). The
+// property only demands that it never lands on a record the interface may not
+// modify: a queued record that did reach the storage is accepted where the
+// model holds nothing or a record the interface may write; everything else is
+// left to compareModel.
+func (e *env) dwReconcile(r *reader) {
+	for k, pm := range r.dwPending {
+		m := e.model[k]
+		if m != nil && !m.permits(r.local, r.internal) {
+			continue
+		}
+		rec, err := e.w.Get(e.full(k))
+		if err != nil {
+			continue
+		}
+		if sn := snapRecord(rec); sn.marker == pm.Marker {
+			stats.Class("delayed_write_of_unprivileged_interface_reached_storage")
+			e.resync(k)
+		}
+	}
 }
 
 func (e *env) afterStep() {
@@ -732,7 +769,7 @@ func (e *env) execReader(op opSpec, k string, r *reader) {
 	lenient := r.lenient(k)
 	stats.Class("path:" + op.Kind)
 	switch op.Kind {
-	case "r.query", "r.sub", "r.clearcache", "r.purge", "r.putmany":
+	case "r.query", "r.sub", "r.clearcache", "r.purge", "r.putmany", "r.dwput", "r.dwflush", "r.dwputmany":
 		// counted where the records they touch are known
 	default:
 		if visible && !perm {
@@ -965,6 +1002,57 @@ func (e *env) execReader(op opSpec, k string, r *reader) {
 			e.failf("MODEL: %s: PutMany finish failed: %v", r.name, err)
 		}
 		e.model[k] = nm
+
+	case "r.dwputmany":
+		if r.dw == nil {
+			return
+		}
+		nm := &mrec{Marker: e.newMarker(k, false, false), N: int64(op.N % 10), T: tval(op.T)}
+		put := r.dw.PutMany(e.p.dbName)
+		err := put(newWrapper(e.full(k), nm.payload(), false, false, false))
+		if err == nil {
+			_ = put(nil)
+			e.failf("MODIFIED: %s with DelayCachedWrites: PutMany accepted a record although the interface lacks a privilege", r.name)
+		}
+		e.taint(r.name, r.local, r.internal, nil, []byte(err.Error()), "an error text from PutMany")
+		e.noteDenied(op.Kind, m)
+
+	case "r.dwput":
+		if r.dw == nil {
+			return
+		}
+		nm := &mrec{Marker: e.newMarker(k, false, false), N: int64(op.N % 10), T: tval(op.T)}
+		err := r.dw.Put(newWrapper(e.full(k), nm.payload(), false, false, false))
+		if err != nil {
+			e.taint(r.name, r.local, r.internal, nil, []byte(err.Error()), "an error text from a delayed Put")
+		}
+		if visible && !perm {
+			e.noteDenied(op.Kind, m)
+			// the interface's cache may hold its own earlier write of this key and judge by that
+			if err == nil && !r.dwSeen[k] {
+				e.failf("MODIFIED: %s with DelayCachedWrites: Put(%q) accepted over a record that is secret=%v crownjewel=%v", r.name, k, m.Secret, m.Crown)
+			}
+		}
+		if err == nil {
+			r.dwPending[k] = nm
+			r.dwSeen[k] = true
+			stats.Class("delayed_write_queued_by_unprivileged_interface")
+		}
+		e.dwReconcile(r)
+
+	case "r.dwflush":
+		if r.dw == nil {
+			return
+		}
+		for kk := range r.dwPending {
+			if mm := e.model[kk]; mm != nil && !mm.permits(r.local, r.internal) {
+				e.noteDenied(op.Kind, mm)
+				stats.Class("delayed_write_flushed_onto_protected_record")
+			}
+		}
+		r.dw.FlushCache()
+		e.dwReconcile(r)
+		r.dwPending = map[string]*mrec{}
 
 	case "r.purge":
 		prefix := prefixOf(op)
